@@ -9,6 +9,7 @@ import (
 	"cmp"
 	"errors"
 	"net"
+	"net/netip"
 	"os"
 	"slices"
 	"sync"
@@ -74,6 +75,70 @@ func ListenUDP(network string, laddr *net.UDPAddr) (*UDPConn, error) {
 		return nil, err
 	}
 	return &UDPConn{B: b, Laddr: laddr}, nil
+}
+
+// ---- name resolution (rule R8) -----------------------------------------------------
+
+var (
+	resolveFn func(host string) (net.IP, error)
+	Resolves  atomic.Int64
+)
+
+// SetResolve installs the simulator's resolver. Host names never reach a real resolver:
+// with none installed every name is "no such host".
+func SetResolve(f func(host string) (net.IP, error)) {
+	mu.Lock()
+	resolveFn = f
+	mu.Unlock()
+}
+
+func lookup(host string) (net.IP, error) {
+	Resolves.Add(1)
+	mu.Lock()
+	f := resolveFn
+	mu.Unlock()
+	if f == nil {
+		return nil, &net.DNSError{Err: "no such host", Name: host, IsNotFound: true}
+	}
+	return f(host)
+}
+
+func literal(host string) bool {
+	if host == "" {
+		return true
+	}
+	_, err := netip.ParseAddr(host)
+	return err == nil
+}
+
+// ResolveUDPAddr is net.ResolveUDPAddr for IP literals; a host name is looked up in the
+// simulator (IPv4 only, as go-upf only asks for "udp4").
+func ResolveUDPAddr(network, address string) (*net.UDPAddr, error) {
+	host, port, err := net.SplitHostPort(address)
+	if err != nil || literal(host) {
+		return net.ResolveUDPAddr(network, address)
+	}
+	pn, err := net.LookupPort(network, port)
+	if err != nil {
+		return nil, err
+	}
+	ip, err := lookup(host)
+	if err != nil {
+		return nil, err
+	}
+	return &net.UDPAddr{IP: ip, Port: pn}, nil
+}
+
+// ResolveIPAddr is net.ResolveIPAddr with the same split.
+func ResolveIPAddr(network, address string) (*net.IPAddr, error) {
+	if literal(address) {
+		return net.ResolveIPAddr(network, address)
+	}
+	ip, err := lookup(address)
+	if err != nil {
+		return nil, err
+	}
+	return &net.IPAddr{IP: ip}, nil
 }
 
 // ---- map iteration order (rule R3) -------------------------------------------------
